@@ -110,7 +110,17 @@ def run(tier, seed, replay=None):
     if not replay:
         docs += TEMPLATES
         for _ in range(160 if tier == "quick" else 2500):
-            docs.append(dslgen.gen_doc(rng, dslgen.Cfg(max_depth=rng.choice([1, 2, 3]), p_default=0.45)))
+            d = dslgen.gen_doc(rng, dslgen.Cfg(max_depth=rng.choice([1, 2, 3]), p_default=0.45))
+            # class-level defaults shaped like the class: right keys, one member possibly of the wrong type
+            for name, c in d["classes"].items():
+                if c["props"] and rng.random() < 0.5:
+                    dv = gen.gen_value(rng, dslgen.spec_schema(d, {"k": "Ref", "name": name}))
+                    if isinstance(dv, dict):
+                        if dv and rng.random() < 0.5:
+                            k0 = rng.choice(sorted(dv))
+                            dv[k0] = rng.choice(["eighty", None, [], 1.5, {"x": 1}])
+                        c["kw"]["default"] = dv
+            docs.append(d)
     cases, metas = [], []
     for doc in docs:
         try:
@@ -233,6 +243,11 @@ def run(tier, seed, replay=None):
 
 
 TEMPLATES = [
+    {"classes": {"Host": {"k": "Obj", "name": "Host", "base": None, "doc": None, "kw": {"default": {"port": "eighty"}},
+                          "props": {"port": {"e": {"k": "Integer", "kw": {}}, "required": True, "source": None}}},
+                 "Deep": {"k": "Obj", "name": "Deep", "base": None, "doc": None, "kw": {"default": {"h": {"port": "eighty"}}, "additionalProperties": False},
+                          "props": {"h": {"e": {"k": "Ref", "name": "Host"}, "required": False, "source": None}}}},
+     "order": ["Host", "Deep"], "root": {"k": "Array", "items": {"k": "Ref", "name": "Deep"}, "kw": {}}},
     {"classes": {"Foo": {"k": "Obj", "name": "Foo", "base": None, "doc": None, "kw": {},
                          "props": {"class_": {"e": {"k": "String", "kw": {"default": "d"}}, "required": False, "source": "class"},
                                    "a": {"e": {"k": "Integer", "kw": {"default": "not an int"}}, "required": True, "source": None},
